@@ -1,21 +1,11 @@
-"""Static per-property metadata (importable without tskit)."""
+"""Static per-property metadata (importable without tskit): collected from meta_cXX.py files."""
+import glob
+import importlib
+import os
 
-ASSUME_COMMON = [
-    "the Python reference model (lib/model.py) states the documented semantics correctly",
-    "tskit's raw column accessors return what is stored (cross-checked by C05/C13)",
-    "ASan/UBSan observe only executed paths; red-zone limits apply",
-]
+from lib.props.meta_common import ASSUME_COMMON  # noqa: F401
 
-META = {
-    "C01": dict(
-        LEVEL="exploration",
-        RULE=("forest-walk generated table collections (random parent maps mutated at random breakpoints, "
-              "decorated with sites/mutations/metadata) crossed with sample_lists x root_threshold x tracked_samples; "
-              "every tree reached by trees(), reversed, at(x) at left/mid/nextafter(right), at_index, first/last is "
-              "compared view-by-view with {child: parent} computed from the edge rows. A case is distinct by the sha1 "
-              "of its full row tuples and non-trivial when it has at least one edge."),
-        REQUIRED=["check_tree:trees()", "check_tree:at", "edge_diffs"],
-        ASSUMPTIONS=ASSUME_COMMON,
-        BUDGET={"quick": 45.0, "thorough": 900.0},
-    ),
-}
+META = {}
+for _p in sorted(glob.glob(os.path.join(os.path.dirname(__file__), "meta_c[0-9]*.py"))):
+    _m = importlib.import_module("lib.props." + os.path.basename(_p)[:-3])
+    META[_m.ID] = _m.META
